@@ -68,6 +68,25 @@ CHECKS.update({
         note='undecoded-first real-fault record: pid/protection wildcard; tie order of equal load addresses not pinned',
         design='5/C20'),
 })
+CHECKS.update({
+    'C02': dict(
+        technique='TLC model checking of Container_MC (histories of parses on one reader state over generated '
+                  'structural files: YieldsExact, NoResidue, TablesAreTheMap); parse histories of encoded files '
+                  'recorded from KdBufParser / PyKdebugParser and validated against Container!ParseFile in TLC',
+        text='Histories of parses on shared tables are explored exhaustively on the design; the code is bound by '
+             'validating real parse histories (1-3 files on one object, three ways of sharing the tables) in TLC.',
+        note='encoder trusted; zero-leading first records are a recorded known finding (C02/pad-eats-record-head); '
+             'first record never all-zero (ambiguous with padding)',
+        design='5/C02'),
+    'C03': dict(
+        technique='TLC model checking of Container_MC (every chunking, every block sequence over the 7 tags: '
+                  'ChunkingInvariance, MetaExact, LogStringsResolved, LogsExtendTables); parse histories of encoded '
+                  'v3 files validated against Container!ParseFile in TLC',
+        text='Chunkings, block orders/multiplicities and log/table interplay explored on the design; real v3 byte '
+             'files (fillers with tag prefixes and decoy tags) bind the code.',
+        note='v3 layout has no independent reference (follows the parser declarative structs); <= 1 string index block',
+        design='5/C03'),
+})
 PENDING = {}
 
 ALL = ['C%02d' % i for i in range(1, 21)]
